@@ -8,6 +8,12 @@ COMMON_TRUSTED = [
 ]
 
 CONF = {
+    "C03": {
+        "n": {"quick": 500, "thorough": 8000},
+        "shard": 250,
+        "trusted_base": ["the regular expression listPathRe is re-implemented as a string function (strip_index) and compared on every generated component string"],
+        "assumptions": ["no step indexes into an existing non-null non-list node (the property's domain); list operations address the list through a handle re-acquired with Lookup immediately before the call"],
+    },
     "C01": {
         "n": {"quick": 1000, "thorough": 12000},
         "shard": 800,
